@@ -34,8 +34,9 @@ def showRes (sig x : Nat) (m : String) : Res → String
 def parseDecl (s : String) : Option (List (String × Nat)) :=
   if s = "" then some [] else
   (s.splitOn ",").mapM fun d =>
-    match d.splitOn "/" with
-    | [n, sg] => (parseNat sg).map fun g => (n, g)
+    -- `<name>/<sig>`; a qualified name `name@pkg/path` contains slashes itself: the signature is after the last one
+    match (d.splitOn "/").reverse with
+    | sg :: rest@(_ :: _) => (parseNat sg).map fun g => (String.intercalate "/" rest.reverse, g)
     | _ => none
 
 def natList (l : List Nat) : String := String.intercalate "," (l.map toString)
@@ -59,6 +60,7 @@ def go (e : Env) (s : St) (started : Bool) (toks : List String) (acc : List Stri
         St.init (fun t => sortMeths ((declOf e t).map (·.1)))
                 (fun v => (e.vars.getD v (0, 0)).1)
                 (fun v => Words.val (e.vars.getD v (0, 0)).2)
+                (fun t => (sortMeths ((declOf e t).map (·.1))).map (sigOf e t))
     match f with
     | ["T", t, d] =>
       match parseNat t, parseDecl d with
@@ -68,6 +70,25 @@ def go (e : Env) (s : St) (started : Bool) (toks : List String) (acc : List Stri
       match parseNat t, parseNat i with
       | some t, some i => if started then "bad-op" else go { e with vars := e.vars ++ [(t, i)] } s false rest acc
       | _, _ => "bad-op"
+    | ["pc", b, v, _called, k, names] =>
+      -- another goroutine calls an already mocked method while this one applies further mocks: for the model the
+      -- history is the sequence of those mocks (the calls do not change the state)
+      let s := start e s
+      match parseNat b, parseNat v, parseNat k with
+      | some b, some v, some k =>
+        if v ≥ e.vars.length ∨ k ≠ s.ncb ∨ ¬ (s.blds b).alive then "bad-op" else
+        let rec apply (s : St) (e : Env) (ns : List String) (k : Nat) (res : String) : Option (St × Env × String) :=
+          match ns with
+          | [] => some (s, e, res)
+          | m :: r =>
+            match step Cfg.fixed s (.mock b v m .ap (sigOf e (s.vtyp v) m)) with
+            | none => none
+            | some (s', .ok) => apply s' { e with created := k :: e.created } r (k + 1) res
+            | some (s', .panic c) => apply s' e r (k + 1) s!"panic:{c}"
+        match apply s e (names.splitOn ",") k "ok" with
+        | none => "unmodelled"
+        | some (s', e', res) => go { e' with maxB := max e'.maxB b } s' true rest (res :: acc)
+      | _, _, _ => "bad-op"
     | kind :: b :: v :: m :: k :: more =>
       let s := start e s
       match parseNat b, parseNat v, parseNat k with
@@ -87,7 +108,9 @@ def go (e : Env) (s : St) (started : Bool) (toks : List String) (acc : List Stri
         | some kd =>
           let isWn := match kd with | .wn _ => true | _ => false
           if isWn && sigOf e (s.vtyp v) m == 2 then "bad-op" else
-          let op : Op := if viaH then .mockH b v m kd fits else .mock b v m kd fits
+          -- the callback the test wrote fits the method it names (the own-package one); a misfit gets class 100+sig
+          let csig := if fits then sigOf e (s.vtyp v) m else 100 + sigOf e (s.vtyp v) m
+          let op : Op := if viaH then .mockH b v m kd csig else .mock b v m kd csig
           match step Cfg.fixed s op with
           | none => "unmodelled"
           | some (s', st) =>
@@ -96,6 +119,15 @@ def go (e : Env) (s : St) (started : Bool) (toks : List String) (acc : List Stri
             | .ok => go { e with created := k :: e.created } s' true rest ("ok" :: acc)
             | .panic c => go e s' true rest (s!"panic:{c}" :: acc)
       | _, _, _ => "bad-op"
+    | ["as", v, x] =>
+      let s := start e s
+      match parseNat v, parseNat x with
+      | some v, some x =>
+        if v ≥ e.vars.length then "bad-op" else
+        match step Cfg.fixed s (.assign v x) with
+        | some (s', _) => go e s' true rest ("ok" :: acc)
+        | none => "unmodelled"
+      | _, _ => "bad-op"
     | ["cn", b, v, m] =>
       let s := start e s
       match parseNat b, parseNat v with
@@ -135,9 +167,10 @@ def go (e : Env) (s : St) (started : Bool) (toks : List String) (acc : List Stri
         if v ≥ e.vars.length then "bad-op" else
         let t := s.vtyp v
         let ms := s.types t
-        let rs := (List.range ms.length).map fun mi =>
+        let rs := (List.range ms.length).filterMap fun mi =>
           let m := ms.getD mi ""
-          s!"{m}={showRes (sigOf e t m) (7 + mi) m (call s v m (7 + mi))}"
+          if sigOf e t m == 9 then none else          -- foreign methods the test package cannot call
+          some s!"{m}={showRes (sigOf e t m) (7 + mi) m (call s v m (7 + mi))}"
         go e s true rest (String.intercalate "|" rs :: acc)
       | none => "bad-op"
     | ["wd", v] =>
